@@ -167,6 +167,13 @@ PROPS['C16']['thorough'] = list(dict.fromkeys(PROPS['C16']['thorough'] + _LIGHT)
 PROPS['C11']['quick'] = list(dict.fromkeys(PROPS['C11']['quick'] + _LIGHT))
 PROPS['C11']['thorough'] = list(dict.fromkeys(PROPS['C11']['thorough'] + _LIGHT))
 PROPS['C18']['quick'] = list(dict.fromkeys(PROPS['C18']['quick'] + _MID))
+# C15 / C01: the eval_composition_polynomial wrapper of every static layout (call sites of the two closed-form boundary values, and
+# every other global value handed to the constraint evaluator) - the mid units contain the light units
+_MID_STATIC = [u for u in _MID if u != 'layoutmid_dynamic']
+PROPS['C15']['quick'] = ['core'] + _MID_STATIC
+PROPS['C15']['thorough'] = ['core'] + _MID_STATIC
+PROPS['C01']['quick'] = ['core'] + _MID
+PROPS['C01']['thorough'] = ['core'] + _MID
 PROPS['C09']['quick'] = list(dict.fromkeys(PROPS['C09']['quick']))
 
 # C01: the DEEP evaluators bind every out-of-domain value to its own coefficient (typing contract of the autogen units)
